@@ -168,6 +168,13 @@ func init() {
 		for i := range conds {
 			conds[i] = Eq(sel, TInt64(int64(i)))
 		}
+		if p.choiceSeen == nil {
+			p.choiceSeen = map[string]bool{}
+		}
+		if !p.choiceSeen[name] {
+			p.choiceSeen[name] = true
+			return TInt64(int64(p.decideFree(conds)))
+		}
 		return TInt64(int64(p.decide(conds)))
 	})
 	// time: verif_time(name) arbitrary instant within [2000-01-01, 2200-01-01) at ns resolution
